@@ -4,6 +4,7 @@ CONSTANTS
   DEV_PartialIntersection = FALSE
   DEV_PartialNetwork = FALSE
   DEV_AddNetOnNonEmpty = FALSE
+  DEV_HangingFreesNamedIds = FALSE
   MaxGen = 1
   Universe = {"XA","XB","OD","OE","LC","TA","SB"}
 VIEW View
